@@ -26,6 +26,14 @@ inverse of the reported affine, the oracle's own physical-coordinate location ma
 attribute that went stale - because the object, or the object it was derived from, had been queried
 before - is reported, and so is any dependence of an answer on the query history.
 
+SCALE (kind scale_entry, and 15% of all other histories): the property has no length scale, so the volumes
+come in every unit - mm (radiology), a fraction of a micrometre (whole-slide imaging, micro-CT), nanometres
+and 'km' - with axes tilted against the reference axes by rational rotations of 2.9 .. 0.0001 degrees (one
+or two axes), axes of very different spacing, origins up to 2e6 voxels away and origin components that are
+tiny but not zero.  Such affines hold legitimate non-zero entries many orders of magnitude below the voxel
+size (and below any absolute "epsilon in mm"); every entry point that touches the affine is applied to them
+and followed by queries.  Every tolerance of the oracle is RELATIVE to the voxel size of the objects at hand.
+
 Oracle (independent of the model): after every step every voxel of the result is located
 in the previous volume BY ITS PHYSICAL COORDINATE (computed from the two affines); retained
 voxels must carry the previous values in all channels, the set of retained voxels must be
@@ -57,6 +65,10 @@ ORACLE_PREMISES = [
     'the model, predicted by the harness with the same seed',
     'np.linalg.inv of a 4x4 affine is modelled by Cramer\'s rule over the rationals (adjugate / determinant); '
     'np.sqrt enters only squared (spacing ** 2, direction * spacing) so the compared values are rational',
+    'model comparison of affine entries is |a - b| <= 1e-9 (1 + |b|) in mm: relative to the voxel only down to '
+    'micrometre voxels (at nm scale it is the oracle, whose tolerances are relative to the voxel size, that judges); '
+    'origins are kept within 2e6 voxels of the frame-of-reference origin so that float64 cancellation in '
+    'np.linalg.inv stays below the tolerance',
 ]
 MODELLED = ('volume.py: _prepare_getitem_index, _prepare_pad_width, _permute_affine, flip_spatial, '
             'swap_spatial_axes, pad_to/crop_to/pad_or_crop_to_spatial_shape, to_patient_orientation, '
@@ -81,7 +93,15 @@ RULE = ('history: 1..8 random operations from the full alphabet on volumes with 
         'box) before the first operation (60%), after each operation (50%) and at the end (always: '
         'inverse_affine + probe of initial voxels + 1-2 more); query_op_query: one query kind, one operation '
         'of every entry point (each kind of the alphabet), then every query kind on the result; non-trivial = at least one '
-        'accepted operation that changes shape, affine or array order; distinct by case hash')
+        'accepted operation that changes shape, affine or array order; distinct by case hash; scale_entry: one '
+        'operation of each of 18 entry points that touch the affine (identity / cyclic permutation, swap, '
+        'to_patient_orientation, ensure_handedness by swap and by flip (asked for the handedness the object lacks), '
+        'flip, strided / int / plain getitem, crop_to, pad, pad_to, pad_or_crop, random_*; copy) on a volume of unit '
+        'um (each entry point), nm / km / mm (the permuting ones in turn, the rest at random) whose axes are tilted by '
+        'tan(angle/2) = 1/n, n in 40 .. 10^6, about one or two axes, SLIDE or PATIENT, then queries (direction*spacing, '
+        'position, spacing^2, probe of initial voxels + one of inverse / find / center / transformer), 60% continued '
+        'by a permuting operation and queries again; 15% of the volumes of all other kinds are drawn from the same '
+        'scales / tilts (12% of the mm ones are tilted)')
 NOT_EXECUTED = ['non-int index items (numpy integers, lists)', 'match_geometry (C09)',
                 'queries get_plane_position(s) / get_plane_orientation / get_pixel_measures / get_affine(convention), '
                 'VolumeToVolumeTransformer.__call__ (only its affine is observed)',
@@ -198,14 +218,15 @@ def _small_rot(rng):
     axes = rng.sample(range(3), rng.choice([1, 1, 2]))
     M = None
     for ax in axes:
-        Rm = _rot_cols(ax, F(rng.choice([1, -1]), rng.choice(SMALL_N)))
+        # (two rotations: small denominators, the exact rationals of the model grow with their product)
+        Rm = _rot_cols(ax, F(rng.choice([1, -1]), rng.choice(SMALL_N if len(axes) == 1 else SMALL_N[:5])))
         M = Rm if M is None else _mat_mul(Rm, M)
     return M
 
 
 def _gen_affine(rng, scale=None, tilt=None):
     if scale is None:
-        scale = 'mm' if rng.random() < 0.72 else rng.choice(['um', 'um', 'um', 'nm', 'km'])
+        scale = 'mm' if rng.random() < 0.85 else rng.choice(['um', 'um', 'um', 'nm', 'km'])
     if tilt is None:
         tilt = rng.random() < (0.12 if scale == 'mm' else 0.6)
     k = rng.random()
@@ -1152,13 +1173,14 @@ def _gen_scale_entry(rng, scale=None, entry=None, tilt=None):
     c['ops'].append(_scale_entry_op(rng, entry, c, c['affine']))
     shape, chans = _track(c)
     c['ops'].append(_rand_query(rng, shape, c['shape'],
-                                names=['dirsp', 'pos', 'sp2', 'probe', 'inv', 'find', 'center', 'xf_to']))
+                                names=['dirsp', 'pos', 'sp2', 'probe', rng.choice(['inv', 'find', 'center', 'xf_to'])]))
     if rng.random() < 0.6:
         c2 = dict(c, shape=shape, chans=chans)
         names = [x for x in PERMUTING_ENTRIES if x != 'orient' or c['cs'] == 'PATIENT']
         c['ops'].append(_scale_entry_op(rng, rng.choice(names), c2))
         shape, chans = _track(c)
-        c['ops'].append(_rand_query(rng, shape, c['shape'], names=['dirsp', 'pos', 'probe', 'rt', 'xf_from']))
+        c['ops'].append(_rand_query(rng, shape, c['shape'],
+                                    names=['dirsp', 'pos', 'probe', rng.choice(['rt', 'xf_from', 'geom', 'sp2'])]))
     c['expect'] = [None if op[0] == 'query' else 'ok' for op in c['ops']]
     return c
 
@@ -1202,15 +1224,19 @@ def gen_cases(rng, tier):
     # scale x entry point: every entry point on a sub-micron volume, and on one of the other scales in turn
     others = ['nm', 'km', 'mm']
     reps = 1 if tier == 'quick' else 6
-    for _ in range(reps):
+    for rep in range(reps):
         for n, e in enumerate(SCALE_ENTRIES):
             cases.append(_gen_scale_entry(rng, 'um', e, True))
-            cases.append(_gen_scale_entry(rng, others[n % 3], e))
+            if tier != 'quick' or e in PERMUTING_ENTRIES:
+                cases.append(_gen_scale_entry(rng, others[(n + rep) % 3], e))
     for _ in range(nh // 10):
         cases.append(_gen_scale_entry(rng))
     if tier == 'thorough':
         cases += _exhaustive_small()
-    return cases
+    # the model evaluates consecutive blocks of 300 cases in parallel: deal the kinds out evenly so that the
+    # expensive ones (queries = exact inverses, small tilts = long rationals) do not end up in one block
+    n_sh = max(1, -(-(len(cases) + 12) // 300))
+    return [c for r in range(n_sh) for c in cases[r::n_sh]]
 
 
 def _exhaustive_small():
